@@ -149,7 +149,11 @@ static void case_1d(Rng& rng, uint64_t)
 			double tolx = 10 * tol * std::fabs(o.xstar) + 100 * std::sqrt(EPS) * std::max(std::fabs(o.xstar), s) + 8 * s * std::sqrt(EPS * std::fabs(o.fstar) / o.kappa) + (o.quartic ? 0.02 * s : 0.0);
 			as_good = std::fabs(a - o.xstar) <= tolx;
 		}
-		require("maximum-is-minimum-of-negated", same_bits(a, xmin) || as_good, [&] { return J().d("Find_Maximum(-f)", a).d("Find_Minimum(f)", xmin); });
+		(void) as_good;
+		// "Find_Maximum of f is Find_Minimum of -f": the same point.  Negating function values is exact, so any implementation that runs the same
+		// search on -f returns the same bits; what the clause must see is a second code path that drifts apart (seeded change C11-m4: the tolerance
+		// argument not handed on).  Equal to rounding is accepted.
+		require("maximum-is-minimum-of-negated", near_ulps(a, xmin, 4), [&] { return J().d("Find_Maximum(-f)", a).d("Find_Minimum(f)", xmin); });
 		(void) b;
 	}
 	if(iters >= 10)
